@@ -42,6 +42,11 @@ def definitions(rng, sz):
     defs.append(IG.nodefault_def(did)); did += 1
     defs.append(IG.unsized_def(did)); did += 1
     defs.append(IG.unsized_def(did)); did += 1
+    # a field-less enum with a primitive repr whose explicit discriminants are a PERMUTATION of 0..n (declaration order is what counts,
+    # whatever the numeric values would suggest), and one that is not dense
+    from ..defs import variant as _v, enum as _e
+    for rp, vals in (("u8", [2, 1, 0]), ("u16", [1, 0, 3, 2]), ("u8", [10, 11, 12]), ("u32", [0, 1, 2])):
+        defs.append(_e(did, [_v(IG.IDS[i], disc=x) for i, x in enumerate(vals)], repr_=rp)); did += 1
     # more variants than a byte counts: 300 unit variants (10% disabled), 270 mixed ones
     defs.append(IG.shape(rng, did, 300, [1 if rng.random() < 0.1 else 0 for _ in range(300)], kinds="unit")); did += 1
     defs.append(IG.shape(rng, did, 270, [1 if rng.random() < 0.1 else 0 for _ in range(270)])); did += 1
